@@ -349,9 +349,11 @@ func runInst(in Inst, tag string) *rig.Violation {
 	}
 	if in.Panics {
 		r.Handle("/zz/panic/{why}", env.NewH(rig.Action{Op: "panic", V: tag}), nil, "GET")
-		o := rig.Serve(front, rig.Req{Method: "GET", Path: prefix + "/zz/panic/now"})
-		if o.Panicked || o.EffStatus() != 500 {
-			return rig.Violf("instance-oracle", "%s: the handler's panic must be answered by this router's WithStatusRecovery(500): escaped=%v (%v), status %d", tag, o.Panicked, o.PanicVal, o.EffStatus())
+		for _, meth := range []string{"GET", "HEAD"} { // HEAD: the recovery then writes through the HEAD wrapper
+			o := rig.Serve(front, rig.Req{Method: meth, Path: prefix + "/zz/panic/now"})
+			if o.Panicked || o.EffStatus() != 500 {
+				return rig.Violf("instance-oracle", "%s: %s: the handler's panic must be answered by this router's WithStatusRecovery(500): escaped=%v (%v), status %d", tag, meth, o.Panicked, o.PanicVal, o.EffStatus())
+			}
 		}
 	}
 	return nil
